@@ -223,6 +223,35 @@ impl WriterRig {
   }
 
   /// `Writer::process_writer_command` (what the event loop does when the command channel is readable)
+  /// Edge-triggered readiness of the command channel, as the event loop sees it: the first call
+  /// registers the channel with a private `mio` poll (`PollOpt::edge()`, like
+  /// `DPEventLoop::add_local_writer`); every call polls once with a zero timeout. The event loop
+  /// calls `process_writer_command` only after such an event.
+  pub fn command_ready(&mut self) -> bool {
+    if !self.keep.iter().any(|k| k.is::<mio_06::Poll>()) {
+      let poll = mio_06::Poll::new().expect("poll");
+      poll
+        .register(
+          &self.writer.writer_command_receiver,
+          mio_06::Token(0),
+          mio_06::Ready::readable(),
+          mio_06::PollOpt::edge(),
+        )
+        .expect("register command channel");
+      self.keep.push(Box::new(poll));
+    }
+    let poll = self
+      .keep
+      .iter()
+      .find_map(|k| k.downcast_ref::<mio_06::Poll>())
+      .expect("poll registered");
+    let mut events = mio_06::Events::with_capacity(4);
+    poll
+      .poll(&mut events, Some(std::time::Duration::from_millis(0)))
+      .expect("poll");
+    !events.is_empty()
+  }
+
   pub fn process_commands(&mut self) -> Vec<net::Sent> {
     self.begin();
     self.writer.process_writer_command();
